@@ -310,7 +310,7 @@ func runC02(c *Ctx) {
 	r.Rule = "(i) random parse trees of the RFC1459/2812+IRCv3 grammar (0-15 params, SPACE runs of length 1-4 between params, optional trailing, any subset of tags/source, " +
 		"letter/numeric commands in any case, LF/CRLF/no ending; middles containing TAB, NBSP, U+0085, ':' inside) rendered by the Lean spec and parsed by the implementation, " +
 		"compared with Spec.meaning; (ii) totality stream: raw random bytes, byte mutations of rendered lines, EXHAUSTIVE strings up to length 3 (thorough: 4) over {@ : SPACE a CR LF ; = \\}, " +
-		"the repository fuzz corpus and ircdocs lines; non-trivial = line has a SPACE; distinct = distinct line"
+		"the repository fuzz corpus and ircdocs lines; (iii) server-time values (valid instants over years 0000-9999 incl. month ends and leap days, and malformed variants: comma/absent/long fraction, one-digit hour, lower case, missing Z, trailing bytes, leap second, hour 24) parsed by the implementation and by the Lean model of time.Parse for the library's layout; non-trivial = line has a SPACE; distinct = distinct line"
 	n := 5000 * c.Scale
 	var rendered []string
 	for i := 0; i < n; i++ {
@@ -326,6 +326,7 @@ func runC02(c *Ctx) {
 			r.Sample(map[string]string{"line": q(line), "parsed": showEventReadable(girc.ParseEvent(line))})
 		}
 	}
+	runServerTime(c)
 	one := func(raw, cls string) {
 		c.run("parse", map[string]string{"raw": raw})
 		r.Count(raw, strings.Contains(raw, " "), cls)
